@@ -118,6 +118,14 @@ def corpus():
           c_check((0, 1, 0, 1, 2, 3, 4, 5), "check-invalid-length"), c_check((3,), "check-invalid-length"),
           c_inside((0, 2, 0, 2), [0.0, 2.0, 1.0, 2.0, -0.5, 2.5], [0.0, 2.0, 1.0, 0.0, 1.0, 1.0], [6], "inside-boundary"),
           c_inside((2, 0, 0, 2), [1.0], [1.0], [1], "inside-invalid-region"),
+          # whole-number coordinates in a narrow integer type, far from the bounds on either side
+          c_inside((-2000000000, 2000000000, -100, 100), [-2000000000.0, 2000000000.0, 5.0, -70000.0, 70000.0, 1999999999.0],
+                   [0.0, 100.0, -100.0, 50.0, -99.0, 7.0], [6], "inside-int32"),
+          c_inside((0, 100000, 0, 100000), [99999.0, 70000.0, 100001.0, 50000.0, 0.0], [70000.0, 99999.0, 5.0, 100000.0, 46341.0], [5], "inside-int32"),
+          c_inside((10, 200, 10, 200), [250.0, 9.0, 10.0, 200.0, 128.0, 255.0], [128.0, 128.0, 255.0, 11.0, 0.0, 255.0], [6], "inside-uint8"),
+          # bounds that only whole-number arithmetic can tell apart
+          c_check((2 ** 53, 2 ** 53 + 1, 0, 1), "check-huge-int"), c_check((2 ** 53 + 1, 2 ** 53, 0, 1), "check-huge-int-invalid"),
+          c_check((0, 1, -2 ** 60 + 1, -2 ** 60), "check-huge-int-invalid"), c_check((10 ** 18, 10 ** 18 + 3, 10 ** 18 + 7, 10 ** 18 + 8), "check-huge-int"),
           c_inside((0, 2, 0, 2), [1.0, float("nan"), 1.0, float("nan"), 3.0], [1.0, 1.0, float("nan"), float("nan"), float("nan")], [5], "inside-nan"),
           c_get_region([1.0, -3.0, 2.5], [7.0, 7.0, 7.0], [3]), c_pad((0, 1, 2, 3), 0.5), c_pad((0, 1, 2, 3), (0.25, -0.5)),
           _f32_inside((-3.3, 20.1, 0.7, 9.9)), _f32_inside((100.1, 100.3, -0.1, 0.1)),
@@ -256,6 +264,11 @@ def impl(case):
             e.setflags(write=False)
             n.setflags(write=False)
             reg_arg = tuple(np.float64(v) for v in a[0])
+        elif case["kind"] in ("inside-int32", "inside-uint8"):
+            e, n = e.astype(case["kind"][7:]), n.astype(case["kind"][7:])
+            e.setflags(write=False)
+            n.setflags(write=False)
+            reg_arg = tuple(int(v) for v in a[0])
         elif len(case["op"]) % 3 == 0:
             reg_arg = np.array(a[0], dtype="float64")
         r = C.call(vd.inside, (e, n), reg_arg)
